@@ -1,6 +1,7 @@
 package main
 
 import (
+	"os"
 	"fmt"
 	"go/ast"
 	"go/token"
@@ -210,6 +211,201 @@ func c19r2(p *Program, r *Report) {
 	}
 }
 
+// c19TableDigits: ParseUUID takes the value of a digit from a package-level table T indexed by the input rune.
+// The table is read (it is a composite literal never written to), and for every entry the expression stored into
+// the UUID is evaluated over the finite domain of the table's values: each of the 22 hexadecimal characters must
+// yield its value, every other entry (and every character without an entry: zero) must be rejected before the
+// store - the stores are only reachable where the looked-up code differs from the zero value or the evaluated
+// nibble of a non-hex entry would be stored.
+func c19TableDigits(p *Program, r *Report, fi *FuncInfo, rng *ast.RangeStmt, runeObj types.Object) (bool, map[string]bool, string) {
+	info := fi.Pkg.TypesInfo
+	g := p.GraphOf(fi)
+	// code := T[r]
+	var lookup *ast.IndexExpr
+	inspectNoLit(rng.Body, func(x ast.Node) bool {
+		ix, ok := x.(*ast.IndexExpr)
+		if !ok || lookup != nil {
+			return true
+		}
+		if id, isId := ast.Unparen(stripAllConv(info, ix.Index)).(*ast.Ident); !isId || info.Uses[id] != runeObj {
+			return true
+		}
+		if tid, isId := ast.Unparen(ix.X).(*ast.Ident); isId {
+			if v, isVar := info.Uses[tid].(*types.Var); isVar && v.Parent() == v.Pkg().Scope() {
+				lookup = ix
+			}
+		}
+		return true
+	})
+	if lookup == nil {
+		return false, nil, ""
+	}
+	tv := info.Uses[lookup.X.(*ast.Ident)].(*types.Var)
+	// the table's literal; the variable is never written or has its address taken
+	var lit *ast.CompositeLit
+	written := false
+	for _, pkg := range p.Pkgs {
+		if pkg.Types != tv.Pkg() {
+			continue
+		}
+		for _, f := range pkg.Syntax {
+			ast.Inspect(f, func(x ast.Node) bool {
+				switch y := x.(type) {
+				case *ast.ValueSpec:
+					for i, nm := range y.Names {
+						if pkg.TypesInfo.Defs[nm] == types.Object(tv) && i < len(y.Values) {
+							lit, _ = ast.Unparen(y.Values[i]).(*ast.CompositeLit)
+						}
+					}
+				case *ast.AssignStmt:
+					for _, l := range y.Lhs {
+						if rid := rootIdent(l); rid != nil && pkg.TypesInfo.Uses[rid] == types.Object(tv) {
+							written = true
+						}
+					}
+				case *ast.IncDecStmt:
+					if rid := rootIdent(y.X); rid != nil && pkg.TypesInfo.Uses[rid] == types.Object(tv) {
+						written = true
+					}
+				case *ast.UnaryExpr:
+					if rid := rootIdent(y.X); y.Op == token.AND && rid != nil && pkg.TypesInfo.Uses[rid] == types.Object(tv) {
+						written = true
+					}
+				}
+				return true
+			})
+		}
+	}
+	if lit == nil || written {
+		return false, nil, "the digit table " + tv.Name() + " is not a composite literal that is never written"
+	}
+	entries := map[int64]int64{}
+	next := int64(0)
+	for _, el := range lit.Elts {
+		val := el
+		if kv, isKV := el.(*ast.KeyValueExpr); isKV {
+			k, isK := constInt(info, kv.Key)
+			if !isK {
+				return false, nil, "a key of the digit table is not a constant"
+			}
+			next, val = k, kv.Value
+		}
+		v, isV := constInt(info, val)
+		if !isV {
+			return false, nil, "an entry of the digit table is not a constant"
+		}
+		entries[next] = v
+		next++
+	}
+	// the local the looked-up code is held in
+	codeName := ""
+	if as, isAs := p.Parent(lookup).(*ast.AssignStmt); isAs && len(as.Lhs) == 1 {
+		if id, isId := as.Lhs[0].(*ast.Ident); isId {
+			codeName = id.Name
+		}
+	}
+	if codeName == "" {
+		return false, nil, "the looked-up digit code is not bound to a local"
+	}
+	// an array table is indexed only where the rune is known to be below its length
+	if at, isArr := tv.Type().Underlying().(*types.Array); isArr {
+		f, _ := g.GuardFacts().Before(p.stmtOf(lookup, fi))
+		d := newDBM(g, f, nil)
+		rid := ast.NewIdent(runeObj.Name())
+		if !d.leExpr(rid, 1, &ast.BasicLit{Kind: token.INT, Value: fmtInt(int(at.Len()))}, 0) && !d.leExpr(rid, 1, &ast.CallExpr{Fun: ast.NewIdent("len"), Args: []ast.Expr{lookup.X}}, 0) {
+			// the comparison may be written on the converted length: r >= rune(len(T)) false
+			okIdx := false
+			for atom, v := range f.m {
+				if !v && strings.HasPrefix(atom, runeObj.Name()+" < ") && strings.Contains(atom, "len("+tv.Name()+")") {
+					okIdx = false
+				}
+				if v && strings.HasPrefix(atom, runeObj.Name()+" < ") && strings.Contains(atom, "len("+tv.Name()+")") {
+					okIdx = true
+				}
+			}
+			r.Check(okIdx, lookup, "ParseUUID looks the rune up only where it is inside the digit table", runeObj.Name()+" < len("+tv.Name()+") known", "the digit table is indexed with a rune that is not known to be below its length: a character beyond the table panics")
+		} else {
+			r.OK(lookup, "ParseUUID looks the rune up only where it is inside the digit table", runeObj.Name()+" < len("+tv.Name()+") known")
+		}
+	}
+	hexval := func(c int64) (int64, bool) {
+		switch {
+		case c >= '0' && c <= '9':
+			return c - '0', true
+		case c >= 'a' && c <= 'f':
+			return c - 'a' + 10, true
+		case c >= 'A' && c <= 'F':
+			return c - 'A' + 10, true
+		}
+		return 0, false
+	}
+	// the stores into the UUID
+	nstore := 0
+	okAll := true
+	why := ""
+	found := map[string]bool{}
+	ast.Inspect(rng.Body, func(x ast.Node) bool {
+		as, ok := x.(*ast.AssignStmt)
+		if !ok || len(as.Lhs) != 1 || len(as.Rhs) != 1 {
+			return true
+		}
+		ix, isIx := ast.Unparen(as.Lhs[0]).(*ast.IndexExpr)
+		if !isIx || typeNameOf(info.TypeOf(ix.X)) != "UUID" {
+			return true
+		}
+		nstore++
+		val := ast.Unparen(as.Rhs[0])
+		shift := int64(0)
+		if b, isB := val.(*ast.BinaryExpr); isB && b.Op == token.SHL {
+			if k, isK := constInt(info, b.Y); isK {
+				shift, val = k, ast.Unparen(b.X)
+			}
+		}
+		f, _ := g.GuardFacts().Before(as)
+		zeroExcluded := false
+		if v, known := f.Known(&ast.BinaryExpr{X: ast.NewIdent(codeName), Op: token.EQL, Y: &ast.BasicLit{Kind: token.INT, Value: "0"}}); known && !v {
+			zeroExcluded = true
+		}
+		if os.Getenv("DBGC19") != "" {
+			fmt.Println("DBGC19", p.Pos(as), f.m)
+		}
+		for c := int64(0); c < 256; c++ {
+			code, has := entries[c]
+			if !has || code == 0 {
+				if !zeroExcluded {
+					okAll, why = false, "a character without an entry in "+tv.Name()+" reaches the store (the zero code is not rejected)"
+				}
+				continue
+			}
+			ev := &evalEnv{info: info, fi: fi, vars: map[string]int64{codeName: code}, seen: map[types.Object]bool{}}
+			got, okE := ev.eval(val)
+			want, isHex := hexval(c)
+			if !okE {
+				okAll, why = false, "the stored value "+exprStr(val)+" cannot be evaluated from the table entry"
+				continue
+			}
+			if !isHex || got != want || shift != 0 && shift != 4 {
+				okAll, why = false, fmt.Sprintf("character %q yields the digit value %d", rune(c), got)
+			}
+		}
+		return true
+	})
+	for nme, rg := range map[string][2]int64{"digits": {'0', '9'}, "lower": {'a', 'f'}, "upper": {'A', 'F'}} {
+		all := true
+		for c := rg[0]; c <= rg[1]; c++ {
+			if v, has := entries[c]; !has || v == 0 {
+				all = false
+			}
+		}
+		found[nme] = all
+	}
+	if nstore == 0 {
+		return false, nil, "the value looked up in " + tv.Name() + " is never stored into the UUID"
+	}
+	r.Check(okAll, lookup, "ParseUUID digit table "+tv.Name()+" gives every hexadecimal character its value and nothing else", "22 entries evaluated through the stored expression", "the digit table / the expression that turns its entry into a nibble is wrong: "+why)
+	return true, found, ""
+}
+
 func c19r3(p *Program, r *Report) {
 	fi := r.NeedFunc("ParseUUID")
 	if fi == nil {
@@ -363,6 +559,19 @@ func c19r3(p *Program, r *Report) {
 		return true
 	})
 	if nwrite == 0 {
+		// a table-driven parser: the digit value is looked up in a package-level constant table indexed by the rune
+		if ok, tabFound, why := c19TableDigits(p, r, fi, rng, runeObj); ok {
+			nwrite = 1
+			for k := range tabFound {
+				found[k] = true
+			}
+		} else if why != "" {
+			r.Unresolved("ParseUUID: %s", why)
+			nwrite = -1
+		}
+	}
+	if nwrite < 0 {
+	} else if nwrite == 0 {
 		r.Unresolved("ParseUUID: no conversion of the input rune into a digit value (byte(r - base)) found")
 	} else {
 		for nme := range ranges {
